@@ -779,13 +779,15 @@ pub fn generate_r(stream: &str, seed: u64, n: usize, emit: &mut dyn FnMut(String
 	let mut produced = 0;
 	let mut files = 0usize;
 	while produced < n {
-		if stream == "ocfd" && files % 7 == 3 {
+		if stream == "ocfd" && files < CODECS.len() {
 			// A block of 1024 16-byte objects (two internal 8 KiB buffers of decompressed data) that
 			// declares fewer objects than it holds - exactly one buffer's worth (512), one less, one
 			// more, all but one -, followed by a well-formed block: the reader must report the
 			// mismatch, whatever the codec and wherever the declared objects happen to end.
+			// (first thing in the stream, one family per codec: a short run must not depend on luck
+			// to meet it)
+			let codec = CODECS[files];
 			files += 1;
-			let codec = CODECS[(files / 7) % CODECS.len()];
 			let raw: RawSchema = vec![RawNode { reg: Reg::Fixed("F".into(), 16), logical: None }];
 			let schema = build::to_schema_mut(&raw).freeze().expect("fixed schema");
 			let sync: Vec<u8> = (0..16).map(|_| rng.gen()).collect();
